@@ -152,6 +152,58 @@ int main(int argc, char **argv)
 		(void)Random();
 		current_lp = &fake[0];
 	}
+	/* every derived function on every crafted raw output: 0, 1, all ones and its neighbour, 2^k and the neighbours of every exponent
+	 * boundary (the first draw of the function sees the crafted value) */
+	{
+		uint64_t cv[200];
+		int nc = 0;
+		cv[nc++] = 0, cv[nc++] = 1, cv[nc++] = ~0ULL, cv[nc++] = ~0ULL - 1;
+		for(int k = 1; k < 64; ++k) {
+			cv[nc++] = (1ULL << k) - 1;
+			cv[nc++] = 1ULL << k;
+			cv[nc++] = (1ULL << k) + 1;
+		}
+		for(int c = 0; c < nc; ++c) {
+			static const int rng_lo[] = {0, -5, 100, 0}, rng_hi[] = {9, 5, 1000000, 2147483646};
+			for(int j = 0; j < 4; ++j) {
+				craft(cv[c]);
+				before();
+				int r = RandomRange(rng_lo[j], rng_hi[j]);
+				fprintf(out, "{\"e\":\"Range\",\"fn\":\"RandomRange\",\"min\":%d,\"max\":%d,\"r\":%d,\"others_same\":%d}\n", rng_lo[j], rng_hi[j], r, others_same());
+			}
+			for(int j = 0; j < 3; ++j) {
+				craft(cv[c]);
+				before();
+				int r = RandomRangeNonUniform(3 + j * 1000, 0, 50 + j * 100000);
+				fprintf(out, "{\"e\":\"Range\",\"fn\":\"RandomRangeNonUniform\",\"min\":0,\"max\":%d,\"r\":%d,\"others_same\":%d}\n", 50 + j * 100000, r, others_same());
+			}
+			for(int j = 0; j < 2; ++j) {
+				craft(cv[c]);
+				before();
+				double d = Expent(j ? 3.5 : 1.0);
+				fprintf(out, "{\"e\":\"Real\",\"fn\":\"Expent\",\"finite\":%d,\"nonneg\":%d,\"others_same\":%d}\n", isfinite(d) ? 1 : 0, d >= 0, others_same());
+			}
+			for(unsigned ia = 1; ia <= 12; ia += (ia < 6 ? 1 : 3)) {
+				craft(cv[c]);
+				before();
+				double d = Gamma(ia);
+				fprintf(out, "{\"e\":\"Real\",\"fn\":\"Gamma\",\"finite\":%d,\"nonneg\":%d,\"others_same\":%d}\n", isfinite(d) ? 1 : 0, d >= 0, others_same());
+			}
+			static const double skews[] = {1.01, 1.2, 2.0, 3.5};
+			static const unsigned lims[] = {1, 7, 1000, 2000000000U};
+			for(int j = 0; j < 4; ++j)
+				for(int q = 0; q < 4; q += 3 - (j & 1)) {
+					craft(cv[c]);
+					before();
+					unsigned z = Zipf(skews[j], lims[q]);
+					fprintf(out, "{\"e\":\"Range\",\"fn\":\"Zipf\",\"min\":1,\"max\":%u,\"r\":%u,\"others_same\":%d}\n", lims[q], z, others_same());
+				}
+			craft(cv[c]);
+			before();
+			double d = Normal();
+			fprintf(out, "{\"e\":\"Real\",\"fn\":\"Normal\",\"finite\":%d,\"nonneg\":1,\"others_same\":%d}\n", isfinite(d) ? 1 : 0, others_same());
+		}
+	}
 	fprintf(out, "{\"e\":\"End\"}\n");
 	fclose(out);
 	return 0;
